@@ -4,9 +4,13 @@
    [resolve] = the specification (a walk of the container's view with kernel semantics); [host_entry cf src pos n]:
    src is below the output directory, nothing is mounted below it, and os.Lstat of its host path yields node n;
    [to_host cf src]: walkMount(src) is handled by the host walk; [lexical src target] = the container path the copier
-   computes for a link at src with that target. *)
+   computes for a link at src with that target; [walk_mounts_below cf wm st dest src] = walkMountsBelow(dest, src) with
+   wm = the walkMount call made for each mount found; [copy_regular m]: the mount was copied into its parent as a
+   regular file at container start (text, json, writable collection); [abs_comps p] = the non-empty components of p;
+   [is_prefix] = component-wise prefix (the test the specification [resolve] uses in locate / child_names_at). *)
 From Coq Require Import NArith List String Bool.
-From AV Require Import lib.Str model.C10_manifest model.C10_gomanifest model.C17_model proofs.C17_proofs.
+From AV Require Import lib.Str model.C10_manifest model.C10_gomanifest model.C17_model proofs.C17_proofs
+  proofs.C17_below_proofs.
 Import ListNotations.
 Local Open Scope string_scope.
 
@@ -117,3 +121,76 @@ Theorem C17_walk_never_panics : forall cf b depth st dest src via below,
   snd (walk cf b depth st dest src via below) <> SPanic.
 Proof. exact walk_no_panic. Qed.
 Print Assumptions C17_walk_never_panics.
+
+(* ---- "collections mounted beneath the output path": what counts as beneath is decided at a path-component boundary ---- *)
+
+(* walkMountsBelow(dest, src) calls walkMount exactly for the mounts (not copied as regular files) whose mount point
+   has the prefix src + "/", in the order of the table, and nothing else *)
+Theorem C17_mounts_below_visited_exactly : forall cf wm st dest src,
+  walk_mounts_below cf wm st dest src =
+  fold_left (fun r rm => bind r (fun st => wm st (dest ++ drop (String.length src) (fst rm)) (fst rm)))
+            (filter (fun rm => has_prefix (src ++ "/") (fst rm) && negb (copy_regular (snd rm))) (c_mounts cf)) (ok st).
+Proof. exact walk_mounts_below_exact. Qed.
+Print Assumptions C17_mounts_below_visited_exactly.
+
+(* the boolean test is the Prop-level statement "mnt = src/rel" *)
+Theorem C17_below_means_separator_then_name : forall src mnt,
+  has_prefix (src ++ "/") mnt = true <-> exists rel, mnt = src ++ "/" ++ rel.
+Proof. exact below_reflect. Qed.
+Print Assumptions C17_below_means_separator_then_name.
+
+(* every visited mount is src/rel for some rel and is saved at dest/rel: no other destination is ever produced *)
+Theorem C17_mount_below_saved_under_its_relative_name : forall cf src dest rm,
+  In rm (filter (fun rm => has_prefix (src ++ "/") (fst rm) && negb (copy_regular (snd rm))) (c_mounts cf)) ->
+  exists rel, fst rm = src ++ "/" ++ rel /\ dest ++ drop (String.length src) (fst rm) = dest ++ "/" ++ rel.
+Proof. exact visited_saved_under_dest. Qed.
+Print Assumptions C17_mount_below_saved_under_its_relative_name.
+
+(* a mount point that only extends the NAME of src (/ctr/outdir/foobar for /ctr/outdir/foo, /ctr/outdir2 for the output
+   directory) is not below src: not for the copier's string test ... *)
+Theorem C17_name_extension_is_not_below : forall src ext,
+  has_prefix "/" ext = false -> has_prefix (src ++ "/") (src ++ ext) = false.
+Proof. exact name_extension_not_below. Qed.
+Print Assumptions C17_name_extension_is_not_below.
+
+(* ... and not for the specification's component-wise test, which agrees with the string test on real descendants *)
+Theorem C17_spec_agrees_on_below : forall src,
+  (forall rel, is_prefix (abs_comps src) (abs_comps (src ++ "/" ++ rel)) = true) /\
+  (forall ext, last (comps_of src) "" <> "" -> ext <> "" -> has_prefix "/" ext = false ->
+               is_prefix (abs_comps src) (abs_comps (src ++ ext)) = false).
+Proof.
+  intros src. split; [intros rel; exact (proj2 (below_is_component_prefix src rel))|exact (name_extension_not_component_prefix src)].
+Qed.
+Print Assumptions C17_spec_agrees_on_below.
+
+(* when no mount point is src/rel, following a link to the directory src (walkHostFS with includeMounts) is the plain
+   walk of src — whatever other mount points have src as a string prefix — and following a link to a path src inside a
+   collection (or excluded / unsupported) mount yields that mount's part only *)
+Theorem C17_sibling_mounts_do_not_affect_host_walk : forall cf b d st dest src,
+  (forall rm, In rm (c_mounts cf) -> copy_regular (snd rm) = true \/ ~ (exists rel, fst rm = src ++ "/" ++ rel)) ->
+  walk cf b (S d) st dest src false true = walk cf b (S d) st dest src false false.
+Proof. exact host_walk_ignores_mounts_not_below. Qed.
+Print Assumptions C17_sibling_mounts_do_not_affect_host_walk.
+
+Theorem C17_sibling_mounts_do_not_affect_mount_walk : forall cf b d st dest src below rm,
+  find_mount cf src = Some rm -> under_secret cf src (String.length (fst rm)) = false ->
+  negb (m_exclude (snd rm)) && String.eqb (m_kind (snd rm)) "tmp" = false ->
+  (forall rm, In rm (c_mounts cf) -> copy_regular (snd rm) = true \/ ~ (exists rel, fst rm = src ++ "/" ++ rel)) ->
+  walk cf b (S d) st dest src true below = walk_mount_static cf st dest src rm.
+Proof. exact mount_walk_ignores_mounts_not_below. Qed.
+Print Assumptions C17_sibling_mounts_do_not_affect_mount_walk.
+
+(* the hypotheses are satisfiable and the whole copy agrees with the specification on the shape: foo/a.txt,
+   link -> foo, collections mounted at /ctr/outdir/foobar and at /ctr/outdir2 — link/ holds a.txt only, foobar/ is
+   saved once, nothing of /ctr/outdir2 is saved *)
+Theorem C17_sibling_mount_witness :
+  (forall rm, In rm (c_mounts nx_cfg) ->
+     copy_regular (snd rm) = true \/ ~ (exists rel, fst rm = "/ctr/outdir/foo" ++ "/" ++ rel)) /\
+  resolve nx_cfg nx_store =
+    SpecOk [("./foo", true, ""); ("./foo/a.txt", false, "aaa"); ("./foobar", true, ""); ("./foobar/x.txt", false, "foo");
+            ("./link", true, ""); ("./link/a.txt", false, "aaa")] /\
+  fst (copy_model nx_cfg nx_store) =
+    ROk [("./foo", true, ""); ("./foo/a.txt", false, "aaa"); ("./foobar", true, ""); ("./foobar/x.txt", false, "foo");
+         ("./link", true, ""); ("./link/a.txt", false, "aaa")].
+Proof. split; [exact nx_nothing_below|]. split; [exact (proj1 nx_witness)|exact (proj1 (proj2 nx_witness))]. Qed.
+Print Assumptions C17_sibling_mount_witness.
